@@ -574,6 +574,9 @@ func genTransport(root *pkg) *genFile {
 	g.def("wsCleanup", "List String", leanStrList(fnActions(root.fn("WebsocketTransport", "cleanup"))), "flattened actions of WebsocketTransport.cleanup")
 	g.def("wsRead", "List String", leanStrList(fnActions(root.fn("WebsocketTransport", "Read"))), "flattened actions of WebsocketTransport.Read")
 	g.def("wsStartReader", "List (List String)", leanStrListList(funcLits(root.fn("WebsocketTransport", "startReader"))), "the reader goroutine started by WebsocketTransport.startReader")
+	g.def("startTLSConn", "List String", leanStrList(assignsTo(root.fn("XMPPTransport", "StartTLS"), "t.conn", map[string]bool{"tlsConn.Handshake": true, "newStreamLogger": true})), "assignments to t.conn in XMPPTransport.StartTLS relative to the handshake and the new stream logger")
+	g.def("startTLSReadWriter", "List String", leanStrList(assignsTo(root.fn("XMPPTransport", "StartTLS"), "t.readWriter", map[string]bool{"tlsConn.Handshake": true})), "assignments to t.readWriter in XMPPTransport.StartTLS")
+	g.def("xmppPingWrites", "List String", leanStrList(fnActions(root.fn("XMPPTransport", "Ping"))), "flattened actions of XMPPTransport.Ping")
 	g.def("wsDoesStartTLS", "List String", leanStrList(returnShapes(root.fn("WebsocketTransport", "DoesStartTLS"))), "what WebsocketTransport.DoesStartTLS returns")
 	g.def("wsIsSecure", "List String", leanStrList(returnShapes(root.fn("WebsocketTransport", "IsSecure"))), "what WebsocketTransport.IsSecure returns")
 	g.def("newSessionConds", "List String", leanStrList(ifConds(root.fn("", "NewSession"))), "if conditions of NewSession in source order (the TLS gate is the third)")
